@@ -181,6 +181,29 @@ Theorem C06_refines_patricia_partial :
   forall (V : Type) (es : list (ev V)), ok_hist [] es -> p_run p_new es = s_run [] es.
 Proof. intros. now apply patricia_refines_partial. Qed.
 
+(** Intermediate results towards the removal of a held key from a map with two or more keys
+    (not closed): Put keeps the ownership facts the re-linking cases of remove rely on (every inner
+    node's own thread lies in its own subtree, one thread per key, the root's thread exists), and in
+    a checked state the descents of Delete / DeleteMin / DeleteMax hand [p_remove] exactly the
+    target, the referrer, the referrer's predecessor and the target's predecessor of the unfolded
+    tree ([tsd], [referrer], [nparent]). *)
+Theorem C06_patricia_put_keeps_ownership :
+  forall (V : Type) (t : pstate V) k (v : V), POwn t -> kvalid k ->
+    exists t', p_put t k v = ROk t' /\ POwn t' /\ p_contents t' = sput k v (p_contents t).
+Proof. intros. now apply p_put_preserves_own. Qed.
+
+Theorem C06_patricia_remove_pointers :
+  forall (V : Type) (t : pstate V) r0 rn c T d check, pinv t r0 rn c T ->
+    p_delete_dir t r0 d check =
+      (let h := pheap t in
+       let n := tsd h d T in
+       let (rp, r) := referrer h d T r0 r0 in
+       nn <- hget h n ;;
+       if check nn then
+         t' <- p_remove t r0 n r rp (nparent h d n T r0) ;; ROk (t', Some (n_key nn, n_val nn))
+       else ROk (t, None)).
+Proof. intros V t r0 rn c T d check I. exact (p_delete_dir_pointers t r0 rn c T d check I). Qed.
+
 (** the bit-level facts behind it: DiffPos and the order of the zero padded bit strings *)
 Theorem C06_diffpos_spec : forall x y, kvalid x -> kvalid y -> x <> y ->
   (1 <= diffpos x y)%Z /\
@@ -249,6 +272,8 @@ Print Assumptions C06_patricia_match_checked.
 Print Assumptions C06_refines_patricia_noDelete.
 Print Assumptions C06_patricia_delete_absent.
 Print Assumptions C06_refines_patricia_partial.
+Print Assumptions C06_patricia_put_keeps_ownership.
+Print Assumptions C06_patricia_remove_pointers.
 Print Assumptions C06_diffpos_spec.
 Print Assumptions C06_bit_order_is_lexicographic.
 Print Assumptions C06_patricia_bounded_partial.
